@@ -46,6 +46,7 @@ def components : List Comp := [
   ⟨"e2e1", (Scales.E2E.comp 1).run⟩,
   ⟨"e2e2", (Scales.E2E.comp 2).run⟩,
   ⟨"e2e12", (Scales.E2E.comp 12).run⟩,
+  ⟨"e2e9", (Scales.E2E.comp 9).run⟩,
   ⟨"tagpool", Scales.TagPool.comp.run⟩,
   ⟨"singleton", Scales.Shared.singleton.run⟩,
   ⟨"refcount", Scales.Shared.refcount.run⟩,
